@@ -5,14 +5,10 @@ import optlib
 from optlib import *
 
 ID = "C21"
-COQ_FILES = ["Common/Corr.v", "Model/Options.v", "Model/ProtocOptions.v", "Proofs/Options.v", "Props/C21.v", "Props/C21_repaired.v"]
+COQ_FILES = ["Common/Corr.v", "Model/Options.v", "Model/ProtocOptions.v", "Proofs/Options.v", "Props/C21.v"]
 PROPS = "Props/C21.v"
 THEOREMS = ["C21_strict_ok_implies_lenient_same", "C21_unlinked_values_subset_of_strict",
-            "C21_unlinked_run_equals_strict_first_pass", "C21_uninterpreted_kept_verbatim",
-            "C21_no_half_population_refuted", "C21_no_half_population_partial"]
-if optlib.REPAIRED:
-    PROPS = "Props/C21_repaired.v"
-    THEOREMS = ["C21_no_half_population", "C21_strict_ok_implies_lenient_same", "C21_unlinked_values_subset_of_strict"]
+            "C21_unlinked_run_equals_strict_first_pass", "C21_uninterpreted_kept_verbatim", "C21_no_half_population"]
 AXIOMS_OK = []
 TRUSTED = ["hand-written Gallina mirror of options/options.go (interpretOptions with its remain list and the two passes, interpretField, "
            "setOptionField, fieldValue, messageLiteralValue, checkFieldUsage, enableLenience): coq/Model/Options.v",
@@ -24,7 +20,7 @@ ASSUMPTIONS = ["lenience is modelled as the carry-on control flow of the same co
                "the final conversion between dynamic and generated messages are outside the model (the pairwise oracle still runs on files that use them)",
                "the linker rewrites extension names in option names to fully-qualified form; uninterpreted options are compared modulo that leading dot"]
 
-CHKS = ["opt_chk_strict", CHK_LENIENT, CHK_UNLINKED]
+CHKS = ["opt_chk_strict", "opt_chk_lenient", "opt_chk_unlinked"]
 
 
 def subtree(u, s):
@@ -305,8 +301,8 @@ def run(ctx):
     if err:
         raise RuntimeError(err)
     for name, corr in (("opt_chk_strict", "options:interpretField (strict)"),
-                       (CHK_LENIENT, "options:interpretOptions (lenient: remain list, messages after failures)"),
-                       (CHK_UNLINKED, "options:interpretOptions (unlinked)")):
+                       ("opt_chk_lenient", "options:interpretOptions (lenient: remain list, messages after failures)"),
+                       ("opt_chk_unlinked", "options:interpretOptions (unlinked)")):
         for i in res[name]:
             klass, c, o = meta[i]
             ctx.corr_break(corr, {"proto": c["files"]["t.proto"], "files": c["files"]},
